@@ -1,4 +1,4 @@
-package dleq
+package oprf
 
 // Abstract field / abstract group model (DESIGN §2.5): a scalar is a Real-sorted term (a field of
 // characteristic 0, decided by z3's nlsat), Inv(x) is a fresh y with x*y = 1, an element is a*G
@@ -26,7 +26,7 @@ func (zzGrp) Generator() group.Element                       { return &zzElt{e: 
 func (zzGrp) RandomElement(rnd io.Reader) group.Element      { return &zzElt{e: zzRFresh()} }
 func (zzGrp) RandomScalar(rnd io.Reader) group.Scalar        { return &zzScl{v: zzRFresh()} }
 func (zzGrp) RandomNonZeroScalar(io.Reader) group.Scalar     { s := &zzScl{v: zzRFresh()}; zzAssume(zzNot(zzREq(s.v, zzRConst(0)))); return s }
-func (zzGrp) HashToElement(msg, dst []byte) group.Element    { return &zzElt{e: zzRFresh()} }
+func (zzGrp) HashToElement(msg, dst []byte) group.Element    { return &zzElt{e: zzRFromBytes("hashToElement", msg, dst)} }
 func (zzGrp) HashToElementNonUniform(m, d []byte) group.Element { return &zzElt{e: zzRFresh()} }
 // random-oracle assumptions, switched on by the soundness harnesses (zzROM): hash-to-scalar outputs
 // are non-zero and collision-free among the queried points, element encoding is injective
